@@ -32,7 +32,7 @@ theorem dummyEmit_spec (L : Nat) : ∀ (n op op' : Nat), op ≤ L → dummyEmit 
       obtain ⟨h1, h2⟩ := dummyEmit_spec L n (op + 1) op' (by omega) h
       exact ⟨by omega, h2⟩
 
-theorem shiftLowDummy_spec {L : Nat} {d d' : Dummy} {e : Enc} (hr : DRel d e) (hcs : 1 ≤ e.cacheSize) (hle : d.outPos ≤ L)
+theorem shiftLowDummy_spec {L : Nat} {d d' : Dummy} {e : Enc} (hr : DRel d e) (_hcs : 1 ≤ e.cacheSize) (hle : d.outPos ≤ L)
     (h : shiftLowDummy L d = some d') :
     DRel d' (shiftLow e) ∧ d'.range = d.range ∧ d'.outPos ≤ L := by
   obtain ⟨hl, hc, hca, ho⟩ := hr
@@ -122,16 +122,18 @@ theorem dummyOps_spec (L : Nat) (ps : Probs) : ∀ (ops : List Op) (d d' : Dummy
         cases b with
         | false =>
           simp only [] at h
-          refine dummyOps_spec L ps ops _ d' _ _ ?_ ?_ ?_ hle1 hps' hnd.2 h
+          refine dummyOps_spec L ps ops _ d' _ _ ?_ ?_ ?_ ?_ hps' hnd.2 h
           · rw [encBit_false]; exact ⟨hr1.low, hr1.cs, hr1.cache, hr1.out⟩
           · rw [encBit_false]; simp only [hrg1, hpc]
           · rw [encBit_false]; exact hcs1
+          · exact hle1
         | true =>
           simp only [] at h
-          refine dummyOps_spec L ps ops _ d' _ _ ?_ ?_ ?_ hle1 hps' hnd.2 h
+          refine dummyOps_spec L ps ops _ d' _ _ ?_ ?_ ?_ ?_ hps' hnd.2 h
           · rw [encBit_true]; exact ⟨by simp only [hr1.low, hrg1, hpc], hr1.cs, hr1.cache, hr1.out⟩
           · rw [encBit_true]; simp only [hrg1, hpc]
           · rw [encBit_true]; exact hcs1
+          · exact hle1
       | direct b =>
         have henc : encOps psCur e (.direct b :: ops) = encOps psCur (encDirect e b) ops := by
           simp only [encOps, List.foldl_cons, encOp]
@@ -141,15 +143,83 @@ theorem dummyOps_spec (L : Nat) (ps : Probs) : ∀ (ops : List Op) (d d' : Dummy
         cases b with
         | false =>
           simp only [] at h
-          refine dummyOps_spec L ps ops _ d' _ _ ?_ ?_ ?_ hle1 hps' hnd' h
+          refine dummyOps_spec L ps ops _ d' _ _ ?_ ?_ ?_ ?_ hps' hnd' h
           · rw [encDirect_false]; exact ⟨hr1.low, hr1.cs, hr1.cache, hr1.out⟩
           · rw [encDirect_false]; simp only [hrg1]
           · rw [encDirect_false]; exact hcs1
+          · exact hle1
         | true =>
           simp only [] at h
-          refine dummyOps_spec L ps ops _ d' _ _ ?_ ?_ ?_ hle1 hps' hnd' h
+          refine dummyOps_spec L ps ops _ d' _ _ ?_ ?_ ?_ ?_ hps' hnd' h
           · rw [encDirect_true]; exact ⟨by simp only [hr1.low, hrg1], hr1.cs, hr1.cache, hr1.out⟩
           · rw [encDirect_true]; simp only [hrg1]
           · rw [encDirect_true]; exact hcs1
+          · exact hle1
+
+theorem shiftLow_total_mono (e : Enc) : e.outTotal ≤ (shiftLow e).outTotal := by
+  unfold shiftLow; split
+  · simp only []; omega
+  · exact Nat.le_refl _
+
+theorem normalize_total_mono (e : Enc) : e.outTotal ≤ (normalize e).outTotal := by
+  unfold normalize; split
+  · exact shiftLow_total_mono e
+  · exact Nat.le_refl _
+
+/-- `rc_encode_dummy` returned false: the symbol and the flush fit into `L` bytes -/
+theorem encodeDummy_fits (ps : Probs) (e : Enc) (ops : List Op) (L : Nat) (hok : OutOk2 e) (hle : e.outTotal ≤ L)
+    (hnd : (ctxs ops).Nodup) (h : encodeDummy ps e ops L = false) :
+    (encFlush (encOps ps e ops).2).out.length ≤ L ∧ (encOps ps e ops).2.outTotal ≤ L := by
+  unfold encodeDummy at h
+  cases hd : dummyOps L ps { low := e.low, cacheSize := e.cacheSize, range := e.range, cache := e.cache, outPos := e.outTotal } ops with
+  | none => rw [hd] at h; cases h
+  | some d0 =>
+    rw [hd] at h
+    simp only [] at h
+    obtain ⟨hr0, _, hcs0, hle0⟩ := dummyOps_spec L ps ops _ d0 e ps ⟨rfl, rfl, rfl, rfl⟩ rfl hok.2 hle (fun _ _ => rfl) hnd hd
+    generalize he' : (encOps ps e ops).2 = e' at *
+    have hok' : OutOk2 e' := by rw [← he']; exact outOk2_encOps ops ps e hok
+    -- the five flush shifts
+    generalize hf0 : ({ normalize e' with range := UINT32_MAX } : Enc) = f0
+    have hrf0 : DRel d0 f0 := by rw [← hf0]; exact ⟨hr0.low, hr0.cs, hr0.cache, hr0.out⟩
+    have hcf0 : 1 ≤ f0.cacheSize := by rw [← hf0]; exact hcs0
+    cases h1 : shiftLowDummy L d0 with
+    | none => rw [h1] at h; cases h
+    | some d1 =>
+      rw [h1] at h
+      simp only [] at h
+      obtain ⟨r1, _, l1⟩ := shiftLowDummy_spec hrf0 hcf0 hle0 h1
+      have c1 := (shiftLow_T hcf0).2.1
+      cases h2 : shiftLowDummy L d1 with
+      | none => rw [h2] at h; cases h
+      | some d2 =>
+        rw [h2] at h
+        simp only [] at h
+        obtain ⟨r2, _, l2⟩ := shiftLowDummy_spec r1 c1 l1 h2
+        have c2 := (shiftLow_T c1).2.1
+        cases h3 : shiftLowDummy L d2 with
+        | none => rw [h3] at h; cases h
+        | some d3 =>
+          rw [h3] at h
+          simp only [] at h
+          obtain ⟨r3, _, l3⟩ := shiftLowDummy_spec r2 c2 l2 h3
+          have c3 := (shiftLow_T c2).2.1
+          cases h4 : shiftLowDummy L d3 with
+          | none => rw [h4] at h; cases h
+          | some d4 =>
+            rw [h4] at h
+            simp only [] at h
+            obtain ⟨r4, _, l4⟩ := shiftLowDummy_spec r3 c3 l3 h4
+            have c4 := (shiftLow_T c3).2.1
+            cases h5 : shiftLowDummy L d4 with
+            | none => rw [h5] at h; cases h
+            | some d5 =>
+              obtain ⟨r5, _, l5⟩ := shiftLowDummy_spec r4 c4 l4 h5
+              have hfl : encFlush e' = shiftLow (shiftLow (shiftLow (shiftLow (shiftLow f0)))) := by rw [← hf0]; rfl
+              refine ⟨?_, ?_⟩
+              · rw [← flush_total hok', hfl, ← r5.out]; exact l5
+              · have := normalize_total_mono e'
+                have h0 := hr0.out
+                omega
 
 end XzVerif.LzmaExec
